@@ -623,6 +623,7 @@ class Http:
     every piece of user code / pyarrow conversion / token sealing may return or raise."""
 
     def __init__(self, S: Any, hook_modes: int = 3) -> None:
+        self.hook: Any = None
         import io
         import time
         import uuid
@@ -683,19 +684,45 @@ class Http:
         H["resolve_external_location"] = lambda S, batch, cm, config, ipc_validation=None: (self.may_raise("resolve_external", RuntimeError), (batch, cm))[1]
         H["_enforce_response_budgets"] = lambda S, **kw: self.may_raise("response_budget", RuntimeError)
         H["_write_stream_header"] = self.write_stream_header
-        H[ipc.open_stream] = lambda S, src: (self.may_raise("open_stream", pa.ArrowInvalid), SObj(None, kind="RawIpcReader"))[1]
+        H[ipc.open_stream] = lambda S, src: (self.reject("not_ipc", pa.ArrowInvalid), SObj(None, kind="RawIpcReader"))[1]
         H[ValidatedReader] = lambda S, raw, validation=None: SObj(None, kind="Reader")
         # request validation
         for nm in ("_deserialize_params", "_validate_call_signature", "_validate_params"):
             H[nm] = lambda S, *a, _nm=nm, **k: self.reject(_nm, KeyError if _nm == "_deserialize_params" else TypeError)
         H["Server._check_protocol_version"] = lambda S, srv_, value: self.reject("protocol_version", VersionError)
-        # dispatch hook
-        self.hook_mode = HOOK_MODES[S.choose(hook_modes)]
-        self.hook = None
-        if self.hook_mode != "none":
-            self.hook = SObj(None, kind="Hook")
-            H["Hook.on_dispatch_start"] = lambda S, h, *a, **k: (S.event("hook_start"), raise_(UserError, "hook start") if self.hook_mode == "start_raises" else "tok")[1]
-            H["Hook.on_dispatch_end"] = lambda S, h, *a, **k: (S.event("hook_end", a[2] if len(a) > 2 else None), raise_(UserError, "hook end") if self.hook_mode == "end_raises" else None)[1]
+        # dispatch hook: decided when the shell first looks at it (after the request was accepted)
+        self.hook_modes = hook_modes
+        self.hook_mode = "unread"
+        H["Server._dispatch_hook@get"] = self.lazy_hook
+        H["Hook.on_dispatch_start"] = lambda S, h, *a, **k: (S.event("hook_start"), raise_(UserError, "hook start") if self.hook_mode == "start_raises" else "tok")[1]
+        H["Hook.on_dispatch_end"] = lambda S, h, *a, **k: (S.event("hook_end", a[2] if len(a) > 2 else None), raise_(UserError, "hook end") if self.hook_mode == "end_raises" else None)[1]
+        # response caps / external storage: decided when first consulted
+        self.caps: Any = None
+        H["App._max_response_bytes@get"] = lambda S, app: S.int("wire_cap") if self.lazy_caps() else None
+        H["App._max_externalized_response_bytes@get"] = lambda S, app: S.int("ext_cap") if self.lazy_caps() else None
+        H["Server.external_config@get"] = lambda S, srv_: SObj(None, kind="ExtCfg", storage=SObj(None, kind="Storage")) if self.lazy_caps() else None
+        self.state_type_asked = False
+        H["StateTypes.get"] = self.state_types_get
+
+    def lazy_hook(self, S: Any, server: Any) -> Any:
+        if self.hook_mode == "unread":
+            self.hook_mode = HOOK_MODES[S.choose(self.hook_modes)]
+            self.hook = None if self.hook_mode == "none" else SObj(None, kind="Hook")
+        return self.hook
+
+    def lazy_caps(self) -> bool:
+        if self.caps is None:
+            self.caps = self.S.choose(2) == 1
+        return self.caps
+
+    def state_types_get(self, S: Any, t: Any, name: Any, default: Any = None) -> Any:
+        # the shell refuses a method whose state type is not registered; the producer turn asks again
+        if not self.state_type_asked:
+            self.state_type_asked = True
+            if S.choose(2) == 1:
+                S.event("rejected", "no_state_type")
+                return None
+        return SObj(None, kind="StateInfo")
 
     def mkbuf(self, S: Any, *a: Any, **k: Any) -> Any:
         self.nbuf += 1
@@ -714,7 +741,7 @@ class Http:
     @staticmethod
     def schema_eq(S: Any, a: Any, b: Any) -> Any:
         if b is srv._EMPTY_SCHEMA or b is st._EMPTY_SCHEMA:
-            return a.fields.get("empty", False)
+            return S.interp.getattr_value(a, "empty")
         return a is b
 
     def write_stream_header(self, S: Any, dest: Any, header: Any, external_config: Any = None, sink: Any = None, method_name: str = "") -> None:
@@ -740,12 +767,9 @@ class Http:
         self.S.handlers["_read_request"] = h
 
     def app(self, **over: Any) -> Any:
-        S = self.S
-        caps = S.choose(2) == 1
         f: dict[str, Any] = dict(
             ipc_validation="full",
-            external_config=(SObj(None, kind="ExtCfg", storage=SObj(None, kind="Storage")) if caps else None),
-            _protocol_version_parts=((1, 0, 0) if S.choose(2) == 1 else None),
+            _protocol_version_parts=(1, 0, 0),
             _describe_batch=None,
             _describe_metadata=None,
             server_id="srv",
@@ -753,23 +777,19 @@ class Http:
             ctx_methods=frozenset(["m"]),
             transport_kind="http",
             implementation=SObj(None, kind="Impl", m=SObj(None, kind="UserMethod")),
-            _dispatch_hook=self.hook,
             server_version="1",
             protocol_hash="h",
             methods={"m": method_info("m", MethodType.STREAM)},
         )
         f.update(over)
-        cache = SObj(None, kind="Cache")
         return SObj(
             None,
             kind="App",
             _server=SObj(None, kind="Server", **f),
-            _max_response_bytes=(S.int("wire_cap") if caps else None),
-            _max_externalized_response_bytes=(S.int("ext_cap") if caps else None),
-            _state_types=({"m": SObj(None, kind="StateInfo")} if S.choose(2) == 0 else {}),
+            _state_types=SObj(None, kind="StateTypes"),
             _token_key=b"k" * 32,
             _token_ttl=3600,
-            _call_state_cache=cache,
+            _call_state_cache=SObj(None, kind="Cache"),
             _upload_url_provider=SObj(None, kind="Provider"),
         )
 
@@ -988,14 +1008,27 @@ def http_stream_init(S):
     install_producer_loop(S)
     W.read_request("m")
     app = W.app()
-    header_declared = S.choose(2) == 1
-    info = method_info("m", MethodType.STREAM, header=header_declared)
-    producer = S.choose(2) == 1
-    mode = RESULT_MODES[S.choose(4)]
-    S.inputs.update({"result_mode": mode, "producer": producer, "header_declared": header_declared})
+    info = method_info("m", MethodType.STREAM)
+    del info.fields["header_type"]  # decided when the shell first looks at it
+    cfg: dict[str, Any] = {"mode": None, "producer": None, "header_declared": None}
+
+    def header_type(S, info_):
+        if cfg["header_declared"] is None:
+            cfg["header_declared"] = S.choose(2) == 1
+        return SObj(None, kind="HeaderType") if cfg["header_declared"] else None
+
+    H["MethodInfo.header_type@get"] = header_type
+
+    def input_is_empty(S, schema):
+        if cfg["producer"] is None:
+            cfg["producer"] = S.choose(2) == 1
+        return cfg["producer"]
+
+    H["Schema.empty@get"] = input_is_empty
 
     def method(S, m, **kwargs):
         S.event("user_code", "method")
+        mode = cfg["mode"] = RESULT_MODES[S.choose(4)]
         if mode == "raises":
             raise_(UserError, S.str("text_method"))
         if mode == "not_a_stream":
@@ -1006,8 +1039,8 @@ def http_stream_init(S):
             None,
             kind="StreamResult",
             call_state=None,
-            output_schema=SObj(None, kind="Schema", tag="out"),
-            input_schema=SObj(None, kind="Schema", tag="in", empty=producer),
+            output_schema=SObj(None, kind="Schema", tag="out", empty=False),
+            input_schema=SObj(None, kind="Schema", tag="in"),
             state=SObj(None, kind="State"),
             header=(None if mode == "header_missing" else SObj(None, kind="Header")),
         )
@@ -1023,10 +1056,308 @@ def http_stream_init(S):
     H[st._ResolvedCall] = lambda S, call_state, output_schema, input_schema, stream_id: SObj(None, kind="Resolved", call_state=call_state, output_schema=output_schema, input_schema=input_schema, stream_id=stream_id)
     H["Cache.put"] = lambda S, cache, call_id, auth, resolved, now: S.event("cache_put", resolved.fields["stream_id"])
     out = S.outcome(st._run_stream_init_sync, app, "m", info, SObj(None, kind="RequestStream"))
-    if not app.fields["_state_types"] and not S.events("rejected"):
-        S.event("rejected", "no_state_type")
+    S.inputs.update({k: v for k, v in cfg.items() if v is not None})
     judge_http_stream_turn(S, W, out, "http_init", STREAM_ID, cancel=False)
     for ev in S.events("call_token_sealed") + S.events("cache_put"):
         S.oblige("O4.http_init.the_sealed_and_cached_stream_id_is_the_recorded_one", ev[1] == STREAM_ID and len(S.events("stream_id_minted")) == 1, kind="trace")
-    if W.hook_mode == "none" and mode == "stream" and producer and not header_declared and not S.events("rejected"):
+    if W.hook_mode == "none" and cfg["mode"] == "stream" and cfg["producer"] and not cfg["header_declared"] and W.caps is False and not S.events("rejected"):
         S.canary("O1.canary.http_init_records_are_never_errors", SBool(z3.BoolVal(all(r["status"] == "ok" for r in records(S)))))
+
+
+# ------------------------------------------------------------------------------------------
+# H3  _run_stream_exchange_sync  (cancel / producer continuation / exchange turn)
+# ------------------------------------------------------------------------------------------
+
+
+def replay_http_exchange(inputs, ob):
+    name = getattr(ob, "name", "") or ""
+    text = "" if "nonempty" in name else ("z" * 700 if "full_server_side" in name else "turn failed")
+    out = []
+    confirmed = False
+    for sc in ("producer_fails", "exchange_fails", "producer_cancel", "exchange"):
+        obs = native_http_stream(sc, text)
+        rs_ = obs["records"]
+        bad: list[str] = []
+        ids = {r.get("stream_id") for r in rs_}
+        if len(ids) != 1 or None in ids:
+            bad.append(f"records of one stream carry stream ids {ids}")
+        if sc.endswith("_fails"):
+            err = [r for r in rs_ if r["status"] == "error"]
+            if len(err) != 1:
+                bad.append(f"{len(err)} error records for one failed turn")
+            bad += judge_native_error_records({"client": obs["client"][0], "records": err[:1]}, text)
+        if sc == "producer_cancel" and sum(1 for r in rs_ if r.get("cancelled")) != 1:
+            bad.append(f"cancel turn: cancelled flags {[r.get('cancelled') for r in rs_]}")
+        for r in rs_:
+            e = schema_errors(r)
+            if e:
+                bad.append(f"jsonschema: {e}")
+        confirmed = confirmed or bool(bad)
+        out.append(f"{sc}: client {obs['client'][0][:50]!r}, {len(rs_)} records; " + ("; ".join(bad) if bad else "ok"))
+    return ReplayResult(confirmed, "http stream turns | " + " | ".join(out))
+
+
+@unit(
+    "C34.H3 _run_stream_exchange_sync: one record per dispatched continuation / exchange / cancel turn with the stream id read from the call token; none for a rejected request",
+    targets=[
+        "vgi_rpc/http/server/_app_stream.py::_run_stream_exchange_sync",
+        "vgi_rpc/http/server/_app_stream.py::_dispatch_telemetry",
+        "vgi_rpc/http/server/_app_stream.py::_unpack_and_recover_state",
+        "vgi_rpc/http/server/_app_stream.py::_run_http_producer_turn",
+        "vgi_rpc/http/server/_app_stream.py::_run_http_exchange_turn",
+        "vgi_rpc/http/server/_app_stream.py::_exchange_error_response",
+        "vgi_rpc/rpc/_server.py::_emit_access_log",
+    ],
+    replay=replay_http_exchange,
+    min_obligations=200,
+    max_paths=20000,
+)
+def http_stream_exchange(S):
+    W = Http(S, hook_modes=3)
+    H = S.handlers
+    install_producer_loop(S)
+    app = W.app()
+    token_sid = S.str("token_stream_id")
+    S.assume(token_sid.length() > 0)  # precondition from init (C34.H2): the sealed id is the 32-hex uuid minted there
+    turn: dict[str, Any] = {"cancel": None, "producer": None}
+
+    def read_next(S, r):
+        k = S.choose(4)
+        if k == 0:
+            S.event("rejected", "corrupt_batch")
+            raise_(pa.ArrowInvalid, "corrupt batch")
+        if k == 1:
+            S.event("rejected", "no_batch")
+            raise_(StopIteration)
+        if k == 2:
+            S.event("rejected", "no_state_token")
+            return (SObj(None, kind="Batch", tag="input"), None if S.choose(2) == 0 else SObj(None, kind="KV", d={}))
+        turn["cancel"] = S.choose(2) == 1
+        d = {STATE_KEY: b"cursor-token", CALL_STATE_KEY: b"call-token"}
+        if turn["cancel"]:
+            d[CANCEL_KEY] = b"1"
+        return (SObj(None, kind="Batch", tag="input"), SObj(None, kind="KV", d=d))
+
+    H["Reader.read_next_batch_with_custom_metadata"] = read_next
+
+    def http_reject(tag):
+        def h(S, *a, **k):
+            if S.choose(2) == 1:
+                S.event("rejected", tag)
+                raise PyRaise(S.interp.models.construct(S.interp, _RpcHttpError, [SExc(RuntimeError, ("bad token: " + tag,))], {"status_code": HTTPStatus.BAD_REQUEST}))
+
+        return h
+
+    H["_compute_aad"] = lambda S, auth: b"aad"
+    H["_open_cursor_token"] = lambda S, token, key, aad, ttl: (http_reject("cursor_token")(S), (b"state-bytes", b"call-id"))[1]
+
+    def resolved_call():
+        def input_is_empty(S, schema):
+            if turn["producer"] is None:
+                turn["producer"] = S.choose(2) == 1
+            return turn["producer"]
+
+        H["Schema.empty@get"] = input_is_empty
+        return SObj(None, kind="Resolved", call_state=None, output_schema=SObj(None, kind="Schema", tag="out", empty=False), input_schema=SObj(None, kind="Schema", tag="in"), stream_id=token_sid)
+
+    H["Cache.get"] = lambda S, cache, call_id, auth, now: resolved_call() if S.choose(2) == 0 else None
+    H["Cache.put"] = lambda S, cache, call_id, auth, resolved, now: None
+    H["_resolve_call_from_token"] = lambda S, app_, call_token, call_id, state_info, auth: (http_reject("call_token")(S), resolved_call())[1]
+    H["_resolve_state_cls"] = lambda S, state_bytes, state_info: (SObj(None, kind="StateCls"), b"raw")
+    H["_deserialize_state_bytes"] = lambda S, cls, raw, validation=None: (W.reject("state_bytes", ValueError), SObj(None, kind="State"))[1]
+    H["State.bind_call_state"] = lambda S, st_, cs: None
+    H["State.rehydrate"] = lambda S, st_, impl: None
+    out = S.outcome(st._run_stream_exchange_sync, app, "m", SObj(None, kind="RequestStream"))
+    cancel = bool(turn["cancel"])
+    S.inputs.update({"cancel": cancel, "producer": turn["producer"]})
+    judge_http_stream_turn(S, W, out, "http_turn", token_sid, cancel=cancel)
+    recs = records(S)
+    if cancel and recs:
+        S.oblige("O3.http_turn.cancel_turn_runs_no_dispatch_hook", not S.events("hook_start") and not S.events("hook_end"), kind="trace")
+    if W.hook_mode == "none" and not cancel and turn["producer"] and W.caps is False and not S.events("rejected"):
+        S.canary("O1.canary.http_turn_records_are_never_errors", SBool(z3.BoolVal(all(r["status"] == "ok" for r in recs))))
+
+
+# ------------------------------------------------------------------------------------------
+# H4  _UploadUrlResource.on_post
+# ------------------------------------------------------------------------------------------
+
+
+def replay_upload(inputs, ob):
+    from vgi_rpc.external import UploadUrl, UploadUrlProvider  # noqa: F401
+    from vgi_rpc.http._testing import make_sync_client
+    from vgi_rpc.rpc import RpcServer
+
+    name = getattr(ob, "name", "") or ""
+    text = "" if "nonempty" in name else ("u" * 700 if "full_server_side" in name else "provider down")
+
+    class Provider:
+        def generate_upload_url(self, schema: Any) -> Any:
+            raise RuntimeError(text)
+
+    import io
+
+    from vgi_rpc.metadata import REQUEST_VERSION, REQUEST_VERSION_KEY, RPC_METHOD_KEY
+
+    with _capture_access_records() as recs:
+        client = make_sync_client(RpcServer(_NProto, _NImpl(), server_id="srv1"), token_key=b"k" * 32, upload_url_provider=Provider())
+        buf = io.BytesIO()
+        sch = pa.schema([pa.field("count", pa.int64())])
+        with pa.ipc.new_stream(buf, sch) as w:
+            w.write_batch(pa.RecordBatch.from_pylist([{"count": 1}], schema=sch), custom_metadata={RPC_METHOD_KEY: b"__upload_url__", REQUEST_VERSION_KEY: REQUEST_VERSION})
+        r = client.post("http://test/__upload_url__/init", content=buf.getvalue(), headers={"Content-Type": "application/vnd.apache.arrow.stream"})
+        rs_ = [x for x in recs if x.get("method") == "__upload_url__"]
+    bad = judge_native_error_records({"client": f"http {r.status_code} marker={r.headers.get('x-vgi-rpc-error')}", "records": rs_}, text)
+    return ReplayResult(bool(bad), f"upload-url provider raising RuntimeError(len {len(text)}): http {r.status_code} marker={r.headers.get('x-vgi-rpc-error')}; " + ("; ".join(bad) if bad else "record ok"))
+
+
+@unit(
+    "C34.H4 _UploadUrlResource.on_post: no record for a rejected request, exactly one otherwise, status = what the response carries",
+    targets=["vgi_rpc/http/server/_resources.py::_UploadUrlResource.on_post", "vgi_rpc/rpc/_server.py::_emit_access_log"],
+    replay=replay_upload,
+    min_obligations=30,
+)
+def http_upload_url(S):
+    W = Http(S)
+    H = S.handlers
+    W.read_request(res._UPLOAD_URL_METHOD)
+    app = W.app()
+    me = SObj(res._UploadUrlResource, _app=app)
+    req = SObj(None, kind="Req")
+    resp = SObj(None, kind="Resp", content_type=None, stream=None)
+    H["_check_content_type"] = lambda S, req_: (S.event("rejected", "content_type"), raise_http(S, TypeError("bad content type"), HTTPStatus.UNSUPPORTED_MEDIA_TYPE))[1] if S.choose(2) == 1 else None
+    H["_get_request_stream"] = lambda S, req_: SObj(None, kind="RequestStream")
+    H["_set_error_response"] = lambda S, resp_, cause, status_code=None, schema=None, server_id=None: S.event("error_response", status_code)
+    H["_set_http_status"] = lambda S, resp_, status: S.event("http_status", status)
+    H["Provider.generate_upload_url"] = lambda S, p, schema: (S.event("user_code", "provider"), W.may_raise("provider"), SObj(None, kind="Url", upload_url="u", download_url="d", expires_at=0))[2]
+    H[pa.RecordBatch.from_pydict] = lambda S, d, schema=None: (W.may_raise("from_pydict", pa.ArrowInvalid), SObj(None, kind="Batch", tag="urls"))[1]
+    out = S.outcome(res._UploadUrlResource.on_post, me, req, resp)
+    recs = records(S)
+    S.oblige("O1.upload_url.returns", out.returned, kind="raises")
+    S.oblige("O1.upload_url.never_more_than_one_record", len(recs) <= 1, kind="trace")
+    if S.events("rejected"):
+        S.oblige("O1.upload_url.rejected_request_leaves_no_record_and_is_answered_as_an_http_error", len(recs) == 0 and len(S.events("error_response")) == 1 and not S.events("user_code"), kind="trace", witness=str(S.events("rejected")[0][1]))
+        return
+    S.oblige("O1.upload_url.exactly_one_record_per_dispatched_call", len(recs) == 1, kind="trace")
+    if not recs or not out.returned:
+        return
+    extra = recs[0]
+    judge_record_shape(S, extra, "upload_url")
+    buf = resp.fields["stream"]
+    errs = sink_events(S, "error_batch", buf) if buf is not None else []
+    sent = S.events("http_status")
+    S.oblige("O3.upload_url.status_error_iff_the_response_is_an_error_response", len(sent) == 1 and (extra["status"] == "error") == (sent[0][1] is not HTTPStatus.OK) == (len(errs) == 1), kind="trace")
+    if errs and extra["status"] == "error":
+        judge_message(S, extra, errs[0][2], "upload_url")
+    S.canary("O1.canary.upload_url_records_are_never_errors", SBool(z3.BoolVal(extra["status"] == "ok")))
+
+
+def raise_http(S: Any, cause: BaseException, status: HTTPStatus) -> None:
+    raise PyRaise(S.interp.models.construct(S.interp, _RpcHttpError, [SExc(type(cause), cause.args)], {"status_code": status}))
+
+
+# ------------------------------------------------------------------------------------------
+# H5  _AccessLogEgressMiddleware.process_response: every queued record is logged exactly once
+# ------------------------------------------------------------------------------------------
+
+
+@unit(
+    "C34.H5 _AccessLogEgressMiddleware.process_response: each record queued by the handlers is logged once, unchanged but for response_bytes",
+    targets=["vgi_rpc/http/server/_middleware.py::_AccessLogEgressMiddleware.process_response"],
+    min_obligations=8,
+)
+def egress(S):
+    n = S.choose(3)
+    queued = [(f"proto.m{i} ok", {"status": "ok", "error_type": "", "method": f"m{i}", "error_message_probe": S.str(f"probe{i}")}) for i in range(n)]
+    before = [dict(e) for _, e in queued]
+    logged: list[Any] = []
+    S.handlers["_access_logger.info"] = S.handlers["Logger.info"] = lambda S, fmt, message, extra=None: logged.append((message, extra))
+    set_ctxvar(S, mw._current_access_sink, queued)
+    size = [None, S.int("content_length")][S.choose(2)]
+    S.handlers["_AccessLogEgressMiddleware._response_bytes"] = lambda S, resp_: size
+    req = SObj(None, kind="Req", context=SObj(None, kind="ReqCtx", _access_sink_token=None, _req_bytes_token=None, _ext_bytes_token=None))
+    me = SObj(mw._AccessLogEgressMiddleware)
+    out = S.outcome(mw._AccessLogEgressMiddleware.process_response, me, req, SObj(None, kind="Resp"), None, True)
+    S.oblige("O1.egress.returns", out.returned, kind="raises")
+    S.oblige("O1.egress.each_queued_record_is_logged_exactly_once_in_order", len(logged) == n and all(logged[i][1] is queued[i][1] and logged[i][0] == queued[i][0] for i in range(min(n, len(logged)))), kind="trace")
+    for i, (_, extra) in enumerate(logged):
+        kept = all(k in extra and (extra[k] is before[i][k] or extra[k] == before[i][k]) for k in before[i])
+        added = set(extra) - set(before[i])
+        S.oblige("O2.egress.record_fields_unchanged_only_response_bytes_added", kept and added <= {"response_bytes"} and (("response_bytes" in extra) == (size is not None)), kind="post")
+    if n == 2:
+        S.canary("O1.canary.egress_logs_nothing", SBool(z3.BoolVal(len(logged) == 0)))
+
+
+# =========================================================================================
+# E1  the emitter alone, arbitrary arguments
+# =========================================================================================
+
+
+def replay_emit(inputs, ob):
+    status = inputs.get("status", "error")
+    etype = inputs.get("error_type", "ValueError") or "ValueError"
+    msg = inputs.get("error_message", "")
+    if not isinstance(msg, str):
+        msg = ""
+    sid = inputs.get("stream_id", "")
+    with _capture_access_records() as recs:
+        tok = srv._current_stream_id.set(sid if isinstance(sid, str) else "")
+        try:
+            srv._emit_access_log("P", "m", inputs.get("method_type", "unary"), "srv", AUTH, {}, 1.0, status, etype if status == "error" else "", error_message=msg, cancelled=bool(inputs.get("cancelled")), protocol_hash="0" * 64)
+        finally:
+            srv._current_stream_id.reset(tok)
+    bad = []
+    if len(recs) != 1:
+        bad.append(f"{len(recs)} records")
+    for r in recs:
+        if r["status"] == "error" and not r.get("error_message"):
+            bad.append(f"status=error record without non-empty error_message: error_message={'<absent>' if 'error_message' not in r else repr(r['error_message'])}")
+        if msg and r.get("error_message") != msg:
+            bad.append(f"error_message changed: {len(r.get('error_message', ''))} of {len(msg)} characters")
+        if bool(inputs.get("cancelled")) != ("cancelled" in r):
+            bad.append("cancelled flag lost")
+        if bool(sid) != ("stream_id" in r):
+            bad.append("stream_id lost")
+    return ReplayResult(bool(bad), f"_emit_access_log(status={status!r}, error_type={etype!r}, error_message={msg[:30]!r} (len {len(msg)}), cancelled={inputs.get('cancelled')}, stream_id={sid!r}): " + ("; ".join(bad) if bad else "record ok"))
+
+
+@unit(
+    "C34.E1 _emit_access_log: for any arguments one record (logger or deferred sink) that carries them unchanged and satisfies the schema's conditional clauses",
+    targets=["vgi_rpc/rpc/_server.py::_emit_access_log"],
+    replay=replay_emit,
+    min_obligations=60,
+)
+def emit_alone(S):
+    install_emitter(S)
+    status = ["ok", "error"][S.choose(2)]
+    mtype = ["unary", "stream"][S.choose(2)]
+    cancelled = S.choose(2) == 1
+    use_sink = S.choose(2) == 1
+    error_type = S.str("error_type")
+    error_message = S.str("error_message")
+    sid = S.str("stream_id")
+    S.inputs.update({"status": status, "method_type": mtype, "cancelled": cancelled, "sink": use_sink})
+    # preconditions from the call sites: error_type is `type(exc).__name__` on error and "" on success; success passes no message
+    S.assume(error_type.length() > 0 if status == "error" else eq(error_type, ""))
+    if status == "ok":
+        S.assume(eq(error_message, ""))
+    set_ctxvar(S, srv._current_stream_id, sid)
+    if use_sink:
+        set_ctxvar(S, srv._current_access_sink, SObj(None, kind="AccessSink"))
+    out = S.outcome(srv._emit_access_log, "P", "m", mtype, "srv", AUTH, {}, 1.0, status, error_type, error_message=error_message, http_status=(200 if use_sink else None), cancelled=cancelled)
+    recs = records(S)
+    S.oblige("O1.emit.never_raises_and_yields_exactly_one_record", out.returned and len(recs) == 1, kind="trace")
+    for extra in recs[:1]:
+        S.oblige("O2.emit.status_type_and_method_are_carried_unchanged", extra.get("status") == status and extra.get("method_type") == mtype and extra.get("method") == "m", kind="post")
+        S.oblige("O2.emit.error_type_is_carried_unchanged", eq(extra["error_type"], error_type), kind="post")
+        if status == "error":
+            has = "error_message" in extra
+            S.oblige("O2.emit.error_record_has_nonempty_error_message", nonempty(extra["error_message"]) if has else False, kind="post", witness=("empty_exception_text" if not has else "empty_value"))
+            if has:
+                S.oblige("O4.emit.error_message_is_carried_in_full", Implies(error_message.length() > 0, eq(extra["error_message"], error_message)), kind="post", witness="truncated")
+        else:
+            S.oblige("O2.emit.ok_record_has_empty_error_type_and_no_message", And(eq(extra["error_type"], ""), "error_message" not in extra), kind="post")
+        S.oblige("O2.emit.stream_id_present_iff_set_and_carried_unchanged", eq(extra["stream_id"], sid) if "stream_id" in extra else eq(sid, ""), kind="post")
+        S.oblige("O4.emit.cancelled_key_iff_cancelled", ("cancelled" in extra) == cancelled and (not cancelled or extra["cancelled"] is True), kind="post")
+    if status == "error" and not cancelled and not use_sink and mtype == "unary":
+        S.canary("O2.canary.emit_never_writes_error_message", SBool(z3.BoolVal(all("error_message" not in r for r in recs))))
